@@ -263,8 +263,9 @@ func (w *TmWorld) label(pre StT, a string, g map[string]interface{}, ok bool) Ev
 }
 
 type tmRunner struct {
-	lg  *sim.Log
-	run string
+	lg       *sim.Log
+	run      string
+	rootArgs map[string]interface{}
 }
 
 func resOf(r sim.Result) map[string]interface{} {
@@ -278,19 +279,33 @@ func trunc(s string, n int) string {
 	return s
 }
 
+var okRes = map[string]interface{}{"ok": true, "code": "", "panic": false, "err": ""}
+
 // Step executes (a, g) on w (already the branch to use), logs the node under parent and returns its id.
 func (r *tmRunner) Step(w *TmWorld, parent, root int, pre StT, a string, g map[string]interface{}) (int, StT) {
 	res := w.Do(a, g)
 	st := w.Project()
+	p := chunker.Parent(r.lg, parent, func(id int) {
+		cp := pre
+		cp.Root, cp.Ev = id, EvT{}
+		r.lg.Add(0, r.run, "Resume", r.rootArgs, okRes, cp)
+	})
+	if p != parent {
+		root = p
+	} else {
+		root = pre.Root
+	}
 	st.Root = root
 	st.Ev = w.label(pre, a, g, res.OK)
-	return r.lg.Add(parent, r.run, a, g, resOf(res), st), st
+	return r.lg.Add(p, r.run, a, g, resOf(res), st), st
 }
 
 func (r *tmRunner) Root(w *TmWorld, profile string) (int, StT) {
+	chunker.NewRoot(r.lg)
 	st := w.Project()
 	st.Root = len(r.lg.Nodes) + 1
-	id := r.lg.Add(0, r.run, "Init", map[string]interface{}{"c": w.Cfg, "profile": profile}, map[string]interface{}{"ok": true, "code": "", "panic": false, "err": ""}, st)
+	r.rootArgs = map[string]interface{}{"c": w.Cfg, "profile": profile}
+	id := r.lg.Add(0, r.run, "Init", r.rootArgs, okRes, st)
 	return id, st
 }
 
